@@ -205,7 +205,9 @@ theorem mapNode_np (leaf : Rd → Outcome Unit) (hleaf : ∀ r, (leaf r).isPanic
                   · rfl
                   · simp_all [Outcome.isPanic]
                   · rfl
-      · have h2 := hleaf r'
+      · split
+        · rfl
+        have h2 := hleaf r'
         split
         · rfl
         · simp_all [Outcome.isPanic]
@@ -295,6 +297,8 @@ theorem mapNode_steps (leaf : Rd → Outcome Unit) (keySize ty : Nat) (bits : Li
                   · rename_i e n2 hg2; rw [hg2] at h5; simp only at h5 ⊢; omega
                   · rename_i ks2 n2 hg2; rw [hg2] at h5; simp only at h5 ⊢; omega
       · split
+        · simp only; omega
+        split
         · simp only; omega
         · simp only; omega
         · split
@@ -479,7 +483,7 @@ theorem snake_spec (c : Cell) : SnakeSpec c := by
 /-! ### BinTree -/
 
 theorem binTree_eq (ty mask : Nat) (bits : List Bool) (refs : List Cell) :
-    binTree (.mk ty mask bits refs) = binNode bits
+    binTree (.mk ty mask bits refs) = binNode ty bits
       (match refs with | l :: _ => some (binTree l) | [] => none)
       (match refs with | _ :: r :: _ => some (binTree r) | _ => none) := by
   match refs with
@@ -487,14 +491,14 @@ theorem binTree_eq (ty mask : Nat) (bits : List Bool) (refs : List Cell) :
   | [_] => rfl
   | _ :: _ :: _ => rfl
 
-theorem binNode_spec (bits : List Bool) (recL recR : Option (Walk Nat)) (bL bR : Nat)
+theorem binNode_spec (ty : Nat) (bits : List Bool) (recL recR : Option (Walk Nat)) (bL bR : Nat)
     (hL : ∀ w, recL = some w → w.1.isPanic = false ∧ w.2 ≤ bL)
     (hR : ∀ w, recR = some w → w.1.isPanic = false ∧ w.2 ≤ bR) :
-    (binNode bits recL recR).1.isPanic = false ∧ (binNode bits recL recR).2 ≤ 1 + bL + bR := by
+    (binNode ty bits recL recR).1.isPanic = false ∧ (binNode ty bits recL recR).2 ≤ 1 + bL + bR := by
   unfold binNode
   split
   · exact ⟨rfl, by simp only; omega⟩
-  · exact ⟨rfl, by simp only; omega⟩
+  · split <;> exact ⟨rfl, by simp only; omega⟩
   · split
     · exact ⟨rfl, by simp only; omega⟩
     · rename_i e n1; have := hL _ rfl; exact ⟨rfl, by simp only at this ⊢; omega⟩
@@ -516,16 +520,16 @@ theorem binTree_spec (c : Cell) : (binTree c).1.isPanic = false ∧ (binTree c).
   unfold cellCount
   match refs, ih with
   | [], _ =>
-    have := binNode_spec bits none none 0 0 (by simp) (by simp)
+    have := binNode_spec ty bits none none 0 0 (by simp) (by simp)
     simp only [cellCount.cellCountList] at this ⊢
     exact ⟨this.1, by omega⟩
   | [a], ih =>
-    have := binNode_spec bits (some (binTree a)) none (cellCount a) 0
+    have := binNode_spec ty bits (some (binTree a)) none (cellCount a) 0
       (by intro w hw; simp only [Option.some.injEq] at hw; subst hw; exact ih a (by simp)) (by simp)
     simp only [cellCount.cellCountList] at this ⊢
     exact ⟨this.1, by omega⟩
   | a :: b :: t, ih =>
-    have := binNode_spec bits (some (binTree a)) (some (binTree b)) (cellCount a) (cellCount b)
+    have := binNode_spec ty bits (some (binTree a)) (some (binTree b)) (cellCount a) (cellCount b)
       (by intro w hw; simp only [Option.some.injEq] at hw; subst hw; exact ih a (by simp))
       (by intro w hw; simp only [Option.some.injEq] at hw; subst hw; exact ih b (by simp))
     have h2 := @cellCount_two a b t
